@@ -121,7 +121,7 @@ func (b *termBuilder) build(v ssa.Value, d int) *Term {
 		fn := x.Parent()
 		for i, p := range fn.Params {
 			if p == x {
-				return &Term{Op: "param", Sym: fmt.Sprintf("p%d", i), Owner: x.Name()}
+				return &Term{Op: "param", Sym: fmt.Sprintf("p%d", oldParamIndex(fn, i)), Owner: x.Name()}
 			}
 		}
 		return &Term{Op: "param", Sym: "p?"}
